@@ -105,8 +105,15 @@ func (b *Bucket[V]) IsStale() (stale bool) {
 		return true
 	}
 
-	latest := b.items[b.items.Len()-1]
-	return latest.expired(time.Now())
+	// The heap only guarantees that the first item expires first; the bucket is
+	// stale only if every item has expired.
+	now := time.Now()
+	for _, it := range b.items {
+		if !it.expired(now) {
+			return false
+		}
+	}
+	return true
 }
 
 // Upsert tries to add a new value and its priority to the bucket.
